@@ -323,10 +323,42 @@ theorem fan_volume_planar (pos : Nat → V3 R) (f : List Nat) (hne : f ≠ []) (
     simp only [V3.dot_def, V3.sdiv_x, V3.sdiv_y, V3.sdiv_z]; field_simp
   rw [hd, hs]; field_simp; ring
 
-/-- the model's fan triangles carry exactly this sum -/
-theorem volSum_fanTris (pos : Nat → V3 R) (f : List Nat) (c : Nat) :
-    volSum pos (fanTris f c) = fanSum pos f (pos c) := by
-  rw [volSum_eq, fanTris_eq, List.map_map]
+theorem sum_map_four {α : Type} (L : List α) (u v w2 w1 : α → R) :
+    (L.map (fun a => u a - v a - (w2 a - w1 a))).sum
+      = (L.map u).sum - (L.map v).sum - ((L.map w2).sum - (L.map w1).sum) := by
+  induction L with
+  | nil => simp
+  | cons a t ih => simp only [List.map_cons, List.sum_cons, ih]; ring
+
+/-- the fan of the polygon `f` around ANY point `c`, all coordinates taken relative to ANY point `o`: the un-centred fan
+    sum minus `o`·(vector area of the polygon) — the spokes cancel around the closed polygon -/
+theorem fanSum_rel (pos : Nat → V3 R) (f : List Nat) (c o : V3 R) :
+    fanSum (rel pos o) f (c - o) = fanSum pos f c - V3.dot o (polyNormal pos f) := by
+  unfold fanSum polyNormal
+  rw [dot_vsum, List.map_map]
+  have key : ∀ a b : V3 R, det3 (a - o) (b - o) (c - o)
+      = det3 a b c - V3.dot o (V3.cross a b) - (V3.dot o (V3.cross b c) - V3.dot o (V3.cross a c)) := by
+    intro a b
+    simp only [det3, V3.dot_def, V3.cross_def, V3.sub_x, V3.sub_y, V3.sub_z]; ring
+  have h1 : (fanPairs f).map (fun p => det3 (rel pos o p.1) (rel pos o p.2) (c - o))
+      = (fanPairs f).map (fun p => det3 (pos p.1) (pos p.2) c - V3.dot o (V3.cross (pos p.1) (pos p.2))
+          - (V3.dot o (V3.cross (pos p.2) c) - V3.dot o (V3.cross (pos p.1) c))) := by
+    apply List.map_congr_left; intro p _; simp only [rel]; exact key _ _
+  rw [h1, sum_map_four]
+  have h2 : ((fanPairs f).map (fun p => V3.dot o (V3.cross (pos p.2) c))).sum
+      = (f.map (fun v => V3.dot o (V3.cross (pos v) c))).sum := by
+    conv_rhs => rw [← fanPairs_snd f]
+    rw [List.map_map]; rfl
+  have h3 : ((fanPairs f).map (fun p => V3.dot o (V3.cross (pos p.1) c))).sum
+      = (f.map (fun v => V3.dot o (V3.cross (pos v) c))).sum := by
+    have := ((fanPairs_fst_perm f).map (fun v => V3.dot o (V3.cross (pos v) c))).sum_eq
+    rw [List.map_map] at this; exact this
+  rw [h2, h3, sub_self, sub_zero]; rfl
+
+/-- the model's fan triangles carry exactly this sum in the loop of `compute_volume`, whatever the reference point `o` is -/
+theorem volSumAt_fanTris (pos : Nat → V3 R) (f : List Nat) (c : Nat) (o : V3 R) :
+    volSumAt pos o (fanTris f c) = fanSum (rel pos o) f (pos c - o) := by
+  rw [volSumAt_eq, fanTris_eq, List.map_map]
   unfold fanSum
   congr 1
 
